@@ -21,7 +21,8 @@ EXTENDS Integers, Sequences, FiniteSets, TLC, Json
 CONSTANTS MaxSnaps,  \* snapshots per history
           Retains    \* retain counts
 
-Keys == {<<1, 5>>, <<2, 3>>, <<2, 7>>}     \* <<term, index>> pairs a snapshot may carry
+Keys == {<<1, 5>>, <<2, 3>>, <<2, 7>>, <<2, 10>>}     \* <<term, index>> pairs a snapshot may carry (one index with
+                                                     \* more digits: directory-name order is not numeric order)
 Modes == {"close", "cancel"}
 Hist(n) == [1..n -> [key : Keys, mode : Modes]]
 Histories == UNION {Hist(n) : n \in 1..MaxSnaps}
